@@ -276,7 +276,7 @@ def run_job(job, acc):
             for msg, pos in must:
                 if pos is None:
                     continue
-                if not any(m.startswith(msg) and q == pos for m, q in have):
+                if not any(msg in m and q == pos for m, q in have):
                     ok = False
                     acc.violation({'sig': 'planted-error-location:' + msg[:30], 'grammar': text,
                                    'what': 'no %r diagnostic at the planted construct %s' % (msg, pos),
